@@ -4,6 +4,7 @@ descriptions through the specification encoder.  One PRNG state per command.
 -/
 import H263V.Spec.GenPic
 import H263V.Model.Util
+import H263V.Spec.AnnexA
 namespace H263V.Spec.GenCases
 open H263V H263V.Util H263V.Spec.Syntax H263V.Spec.GenPic
 
@@ -100,7 +101,23 @@ def dquantCases : List String :=
                                          deblock := false, quant := q0 + 1, extra := [] }, mbs := [mb] }
     s!"P 1 d:{hexOf p}"
 
+/-- Annex A coefficient blocks of range index `k` (0..5: (256,255), (5,5), (300,300) and their negations), generator seed
+`seed`: for every block two T lines (prediction 0 and 255, so that the signed residual is observable) -/
+def annexACases (k seed count : Nat) : List String := Id.run do
+  let (L, H) := match k % 3 with | 0 => (256, 255) | 1 => (5, 5) | _ => (300, 300)
+  let neg := k ≥ 3
+  let mut r := seed
+  let mut out : List String := []
+  for _ in [0:count] do
+    let (b, r') := Spec.AnnexA.randBlock r L H neg
+    r := r'
+    let coef := Spec.AnnexA.fdct b
+    let body := "F:" ++ ",".intercalate (coef.toList.map toString)
+    out := s!"T 1 8 64 255 {body}" :: s!"T 1 8 64 0 {body}" :: out
+  return out.reverse
+
 def runGen (kind : String) (seed count : Nat) : List String :=
+  if kind.startsWith "annexa" then annexACases (kind.drop 6).toString.toNat! seed count else
   if kind == "dquant" then dquantCases else
   let g : G (List String) := do
     let mut out : List String := []
